@@ -185,6 +185,10 @@ pub fn gen_schema_record(rng: &mut Rng, id: u32) -> Val {
     if rng.chance(1, 4) {
         m.push(("t".into(), Val::Bool(rng.chance(1, 2))));
     }
+    if rng.chance(1, 5) {
+        // a small program as data (texts that share their beginning)
+        m.push(("sel".into(), Val::Str((*rng.pick(&["(>= .id 10)", "(>= .id 1)", "(= .g \"a\")", "(= .g \"b\")", ".n", "(+ .id 1)", "(size .arr)", "(= .id 2)", "(= .id 0)", "(>= .n 0)"])).to_string())));
+    }
     Val::Obj(m)
 }
 
@@ -565,6 +569,10 @@ pub const SELECT_EXPRS: &[&str] = &[
     // a variable rebound from the record on every evaluation
     "(set \"f\" .g (format_time .id :f))", "(set \"sep\" .g (join .arr :sep))", "(set \"d\" .g (split .s :d))",
     "(set \"k\" .g (get .obj :k))",
+    // programs and keys that come from the data: whatever a function remembers about the
+    // text or the key of one record meets another text, another key, in the next one
+    "(parse_selection .sel)", "(parse_selection (concat \"(>= .id \" (stringify (% .id 3)) \")\"))",
+    "(group_by .arr .)", "(group_by (values .obj) .)", "(sort_by .arr (size .))", "(group_by .arr (? (string? .) . 1))",
     // references to the parent input where a stage or a function has derived the context
     "^.", "^.id", "^^.g", "(set \"v\" 1 ^.)", "(map . (set \"v\" 1 ^.))", "(define \"q\" ^.id @q)",
     "(| .arr (| . ^^.id))", "(map .arr (set \"w\" . ^.id))", "(filter .arr (= ^.id 1))",
